@@ -26,6 +26,7 @@ import (
 	"github.com/New-JAMneration/JAM-Protocol/internal/types"
 	"github.com/New-JAMneration/JAM-Protocol/internal/utilities/merklization"
 	"github.com/New-JAMneration/JAM-Protocol/internal/zzverif/sim"
+	"github.com/New-JAMneration/JAM-Protocol/internal/zzverif/simrt"
 )
 
 // ---------------------------------------------------------------------------
@@ -150,6 +151,8 @@ type run struct {
 	ticketHeavy bool
 	// set while a to-be-damaged sibling is planned
 	moreDisputes bool
+	reportSeq    int
+	minSlot      types.TimeSlot // lower bound for the slot of the block being planned
 }
 
 func path(b *chainBlock) []*chainBlock {
@@ -163,7 +166,11 @@ func path(b *chainBlock) []*chainBlock {
 // freshNode starts a new incarnation from the genesis export.
 func (ru *run) freshNode() (*node, types.StateRoot, error) {
 	n := &node{r: ru.r}
-	root, err := n.setState(ru.g.header, ru.g.kvs, nil)
+	var anc types.Ancestry
+	if ru.g.withAncestry {
+		anc = types.Ancestry{{Slot: ru.g.header.Slot, HeaderHash: headerHash(ru.g.header)}}
+	}
+	root, err := n.setState(ru.g.header, ru.g.kvs, anc)
 	return n, root, err
 }
 
@@ -219,6 +226,34 @@ func runOne(r *sim.Run) {
 		return
 	}
 	ru := &run{r: r, t: t, a: newAuthor()}
+	// map iteration order inside the state codec (instrumented `range` over maps): a permutation that is a pure
+	// function of one tape value, the site and the map size (the codec ranges over maps from several goroutines,
+	// so a call counter would not be deterministic) - never Go's own randomised order
+	orderSeed := uint64(t.Choose(1<<16, "map_order_seed"))
+	ms := simrt.New(t.Choose)
+	ms.MapOrder = func(n int, site string) []int {
+		x := orderSeed*0x9E3779B97F4A7C15 ^ uint64(n)*0xBF58476D1CE4E5B9
+		for _, c := range []byte(site) {
+			x = (x ^ uint64(c)) * 0x100000001B3
+		}
+		p := make([]int, n)
+		for i := range p {
+			p[i] = i
+		}
+		if orderSeed%4 == 0 {
+			return p // sorted order in a quarter of the runs
+		}
+		for i := n - 1; i > 0; i-- {
+			x ^= x >> 12
+			x ^= x << 25
+			x ^= x >> 27
+			j := int((x * 0x2545F4914F6CDD1D) >> 33 % uint64(i+1))
+			p[i], p[j] = p[j], p[i]
+		}
+		return p
+	}
+	ms.Attach()
+	defer ms.Detach()
 	ru.g = mkGenesis(t)
 	// ---------------- phase A: author ----------------------------------------------------------
 	scratch, root0, err := ru.freshNode()
@@ -250,6 +285,7 @@ func runOne(r *sim.Run) {
 		nBlocks = t.Range(3, 60, "nblocks2")
 	}
 	head := ru.gen
+	var lastAccepted *chainBlock // the block the scratch node imported last
 	authorBugs := 0
 	for i := 0; i < nBlocks && authorBugs < 6; i++ {
 		parent := head
@@ -262,6 +298,11 @@ func runOne(r *sim.Run) {
 				p = p.parent
 			}
 			parent, fork = p, true
+		}
+		ru.minSlot = 0
+		if ru.g.withAncestry && lastAccepted != nil && parent != lastAccepted {
+			// a node that keeps an ancestry list refuses blocks older than the newest entry of that list
+			ru.minSlot = lastAccepted.block.Header.Slot
 		}
 		plan := ru.planBlock(parent)
 		b, err := ru.a.build(parent, plan)
@@ -285,6 +326,20 @@ func runOne(r *sim.Run) {
 		if err != nil {
 			authorBugs++
 			r.Count("author:block_rejected_by_scratch_node", 1)
+			if short := err.Error(); true {
+				if k := strings.Index(short, "0x"); k >= 0 && len(short) > k+24 {
+					short = short[:k] + short[k+24:]
+				}
+				if len(short) > 60 {
+					short = short[:60]
+				}
+				r.Count("author:rejected_because:"+short, 1)
+			}
+			if dbg := os.Getenv("VERIF_DEBUG_AUTHOR"); dbg != "" && strings.Contains(err.Error(), dbg) {
+				// debugging aid for the harness author (never set by a registered command)
+				r.Violate(r.Prop, "debug", "author-bug", "scratch node rejected the author's block at depth %d slot %d (parent depth %d slot %d, fork=%v, tickets=%d): %v", cb.depth, b.Header.Slot, parent.depth, parent.block.Header.Slot, fork, len(b.Extrinsic.Tickets), err)
+				return
+			}
 			plain := merklization.MerklizationSerializedState(parent.kvs)
 			r.Logf("author bug? scratch node rejected block at depth %d slot %d (parent depth %d root %x, uncached root of parent export %x): %v", cb.depth, b.Header.Slot, parent.depth, parent.root[:4], plain[:4], err)
 			// the scratch node may now be in the state a rejected block leaves behind: start it again from the parent path
@@ -292,9 +347,11 @@ func runOne(r *sim.Run) {
 			for _, p := range path(head) {
 				scratch.importBlock(p.block)
 			}
+			lastAccepted = head
 			continue
 		}
 		cb.root = root
+		lastAccepted = cb
 		kvs, err := scratch.getState(cb.hash)
 		if err != nil {
 			panic("scratch GetState failed: " + err.Error())
@@ -372,6 +429,11 @@ func runOne(r *sim.Run) {
 	}
 	if nValid >= 3 {
 		r.Nontrivial()
+	}
+	for _, b := range ru.all {
+		if b.valid && b.accepted && b.parent != nil && b.parent.state != nil && len(refAvailable(b.parent.state, &b.block)) > 0 {
+			r.Count("probe:reports_became_available_in_history", 1)
+		}
 	}
 	r.Shape(uint64(nValid)<<16 ^ uint64(len(ru.all)))
 	r.Summary("genesis tau=%d services=%d; %d valid blocks (max depth %d), head slot %d", ru.g.state.Tau, len(ru.g.svcIDs), nValid, head.depth, head.block.Header.Slot)
